@@ -9,6 +9,15 @@ ALL = ["C%02d" % i for i in range(1, 21)]
 TECH = "contract-based deductive verification: sidecar contracts on the real functions, VCs generated from /repo's ast by pyvc, discharged by z3/cvc5"
 
 CHECKS = {
+    "C09": dict(
+        category="proof", design_ref="DESIGN.md section 8 (C09)",
+        text=("InitMethod.init: the loop over the attributes owned by the class and the finalisation are symbolically executed from the current source "
+              "(loop invariant over the attrs dict, each assignment through the proved contract of the generated __setattr__): a given keyword value is "
+              "stored prepared and protectively copied, otherwise the nearest default (Attr.lookup_default_value), otherwise the attribute stays missing; "
+              "no other slot is written; __post_init__ runs exactly once after the loop (ghost call log); the initializing flag is removed. Discharged by z3."),
+        note=("Phase 1 (routing through parent spec classes' constructors: MRO reflection, arbitrary user-written __init__) is NOT verified - declared cut "
+              "assumption + bounded stand-in over five hierarchies; overflow attribute and generated signature: bounded / C17. One genuine defect in "
+              "phase 1 found by the stand-in was repaired (arguments routed through a parent were not copied).")),
     "C18": dict(
         category="proof", design_ref="DESIGN.md section 8 (C18)",
         text=("Alias.__get__/__set__/__delete__ and the three DeprecatedAlias wrappers are symbolically executed from the current source against the "
